@@ -347,6 +347,12 @@ func checkCase(c *Case) error {
 		c.obs.outOfDomain = true
 		return nil
 	}
+	return checkFile(c, res)
+}
+
+// checkFile opens the rendered file in both error-handling modes and compares
+// every object and the trailer information with the reference model.
+func checkFile(c *Case, res *serial.Result) error {
 	exp := expected(c, res)
 
 	for _, mode := range []pdf.ReaderErrorHandling{pdf.ErrorHandlingReport, pdf.ErrorHandlingRecover} {
